@@ -232,9 +232,16 @@ impl Runtime {
                     .unwrap_or_else(|err| error!("scher.initialize upsert={}", err));
 
                 let ctx = e.create_context();
+                let state = e.state();
                 // run the hook events
                 e.run_hooks(&ctx)
                     .unwrap_or_else(|err| error!("scher.initialize hooks={}", err));
+
+                // the hooks can change the state (a catch takes the error),
+                // the new state is emitted by its own task event
+                if e.state() != state {
+                    return;
+                }
 
                 // check task is allowed to emit message to client
                 if !e.state().is_pending() && !e.state().is_running() && !e.is_emit_disabled() {
